@@ -23,7 +23,7 @@ harn=$(echo "$res" | grep -c HARNESS)
 cat > $out/meta.json <<EOT
 {"id": "$id", "property": "$prop", "source": "independent sub-agent given only the property text and a scratch worktree",
  "baseline_with_change": "$base", "demo_exit_unchanged": $demo_clean, "demo_exit_with_change": $demo_mut,
- "check_cmd": "VERIF_REPO=<scratch copy with patch> ./run $prop --tier $tier", "check_violations": $viol, "check_harness_errors": $harn,
+ "check_cmd": "VERIF_REPO=<scratch copy with patch> ./run $prop --tier $tier", "evaluated_at_repo_commit": "$(git -C /repo rev-parse --short HEAD)", "check_violations": $viol, "check_harness_errors": $harn,
  "detected": $([ $viol -gt 0 ] && echo true || echo false),
  "first_report": $(echo "$first" | /venv/bin/python -c 'import json,sys;print(json.dumps(sys.stdin.read().strip()))')}
 EOT
